@@ -46,6 +46,11 @@ def obligations(tier):
     # a member swapped for one of the same name that reads another input (remove_indicator + add_indicator)
     for name, kw, n in (("SMA", dict(period=2), 5), ("EMA", dict(period=2), 5), ("WMA", dict(period=2), 5), ("HMA", dict(period=4), 8)):
         obs.append(Ob(f"swap-input/{name}{kw}/close->open/n={n}", dict(spec=["ind", name, kw], n=n, input="open"), DEF, fn="run_swap", weight=n * 3, budget_s=300))
+    # a fast and a slow instance of one class side by side in a Hexital: each follows its own definition
+    for name, kw, sib, n in (("SMA", dict(period=3), dict(period=2), 6), ("EMA", dict(period=3), dict(period=2), 6), ("EMA", dict(period=2), dict(period=2, smoothing=3.0), 5), ("RMA", dict(period=3), dict(period=2), 6),
+                             ("WMA", dict(period=3), dict(period=2), 6), ("VWMA", dict(period=3), dict(period=2), 5), ("HMA", dict(period=5), dict(period=4), 9), ("HMA", dict(period=4), dict(period=4, input_value="high"), 8)):
+        for feed in ("batch", "append"):
+            obs.append(Ob(f"sibling/{name}{kw} next to {sib}/{feed}/n={n}", dict(spec=["ind", name, kw], sibling=sib, n=n, feed=feed, posvol=(name == "VWMA")), DEF, fn="run_sibling", weight=n * 5, budget_s=300))
     return obs
 
 
